@@ -15,8 +15,8 @@
      neighbour rels a i      i is the other end of one of rels
      scans qf P / answers qf P   the query function returns filter q P / the same objects in some order  *)
 From Coq Require Import NArith ZArith List Bool Permutation.
-From V Require Import Base.UString Model.Store Model.StoreRun Spec.StoreSpec
-  Proofs.StoreBase Proofs.StoreMem Proofs.StoreFs Proofs.StoreAgree Proofs.StoreComposite Proofs.StoreNav.
+From V Require Import Base.UString Model.Store Model.StoreRun Model.StoreCases Spec.StoreSpec Spec.StoreNavSpec
+  Proofs.StoreBase Proofs.StoreMem Proofs.StoreFs Proofs.StoreAgree Proofs.StoreComposite Proofs.StoreNav Proofs.StoreRefute.
 From V Require Import Model.Factory Proofs.FactoryFacts.
 Import ListNotations.
 Open Scope list_scope.
@@ -184,6 +184,9 @@ Theorem navigation_filesystem : forall (ts2fn : Z -> ustring) (L : list obj) (s 
 Proof. exact navigation_fs. Qed.
 Print Assumptions navigation_filesystem.
 
+(* DEFINITIONAL in the model: this is the body of creator_of (DataSource.creator_of / Environment.creator_of); the
+   tie to the code is the correspondence run and source_navigation_choices.  The content-bearing statement is
+   creator_memory below (with mem_refines: the newest version of the creator id). *)
 Theorem creator_is_lookup : forall (src : source) (o : obj),
   creator_of src o = match prop_get k_created_by_ref o with
                      | Some (c :: r) => s_get src [] (c :: r)
@@ -198,15 +201,33 @@ Theorem creator_memory : forall mode iot (L : list obj) (o : obj) (cid : ustring
 Proof. exact creator_mem. Qed.
 Print Assumptions creator_memory.
 
-(* an Environment reads through a composite over store.source and source: everything above applies to it *)
+(* DEFINITIONAL in the model (env_source := composite_source, proof by reflexivity): it records that every theorem
+   about composites applies to an Environment; that Environment.__init__ wires store.source then source into a
+   CompositeDataSource is checked by the correspondence run and by the translator (c_environment) *)
 Theorem environment_is_composite : forall (rm : related_mode) (af : list sfilter) (ms : list source),
   env_source rm af ms = composite_source rm af ms.
 Proof. reflexivity. Qed.
 Print Assumptions environment_is_composite.
 
+(* relationships through a composite / Environment: the de-duplicated scan of the union of the members' populations;
+   exactly the scan when copies of one (id, version) in several members are the same object *)
+Theorem crelationships_is_union_scan : forall (ms : list source) (Ps : list (list obj)) (a : ustring)
+    (rt : option ustring) (so to : bool),
+  ms <> [] -> Forall2 scan_member ms Ps -> so && to = false ->
+  let U := concat Ps in
+  exists rels, crelationships ms a rt so to = Ok rels /\
+    (forall r, In r rels -> In r (rel_scan U a rt so to)) /\
+    (forall r, In r (rel_scan U a rt so to) -> exists r', In r' rels /\ dkey_of r' = dkey_of r) /\
+    NoDup (map dkey_of rels) /\
+    ((forall x y, In x U -> In y U -> dkey_of x = dkey_of y -> x = y) ->
+     forall r, In r rels <-> In r (rel_scan U a rt so to)).
+Proof. exact (crelationships_union_scan (fun _ => None)). Qed.
+Print Assumptions crelationships_is_union_scan.
+
 (* ---- related_to through a composite ---- *)
 
-(* PerMember (the code as it is): each member navigates within its own data *)
+(* PerMember (the code before 7d18324): each member navigates within its own data.  DEFINITIONAL: this is the
+   PerMember branch of crelated_to, kept to state what that variant computes next to its refutation *)
 Theorem related_composite : forall (af : list sfilter) (ms : list source) (a : ustring) (rt : option ustring)
     (so to : bool) (fl : list sfilter),
   ms <> [] ->
@@ -277,3 +298,13 @@ Print Assumptions factory_created_is_modified.
 (* ---- hypotheses are satisfiable ---- *)
 Example scan_member_inhabited : forall m : mem, scan_member (mem_source [] m) (mem_objs m).
 Proof. exact (mem_scan_member). Qed.
+
+(* composite_get_newest_of_union / composite_get_member_order on a concrete two-member composite (dictionary-kept
+   content with timestamp text, repaired reading): the ...500000 version, in both member orders; no members: an
+   exception, not a default *)
+Example composite_get_two_members :
+  cget [] (mem_members Chrono w_iot [[w_a]; [w_b]]) [] w_id = Ok (Some (norm_obj Chrono w_iot w_b)) /\
+  cget [] (mem_members Chrono w_iot [[w_b]; [w_a]]) [] w_id = Ok (Some (norm_obj Chrono w_iot w_b)) /\
+  omod (norm_obj Chrono w_iot w_b) = VInst 1577836800500000%Z /\
+  cget [] [] [] w_id = Err EAttr.
+Proof. vm_compute. repeat split; reflexivity. Qed.
